@@ -535,7 +535,7 @@ class Gen:
 
     def op_squeeze(self, f):
         r = self.r
-        nd = len(self.fshape) if self.fshape is not None else 1
+        nd = max(1, len(self.fshape)) if self.fshape is not None else 1
         ones = [i for i, n in enumerate(self.fshape or ()) if n == 1]
         axes = None
         ch = r.random()
